@@ -1073,15 +1073,20 @@ impl<F: Read + Write + Seek> CompoundFile<F> {
                 dir_entry.stream_len < consts::MINI_STREAM_CUTOFF as u64,
             )
         };
+        // Remove the directory entry first and release the stream's sectors
+        // afterwards: if the second step fails, the sectors are merely not
+        // reused, whereas an entry left pointing at released sectors would
+        // have them released a second time - out of another stream's hands -
+        // when the removal is retried.
+        debug_assert!(!names.is_empty());
+        let name = names.pop().unwrap();
+        let parent_id = self.stream_id_for_name_chain(&names).unwrap();
+        self.minialloc_mut().remove_dir_entry(parent_id, name)?;
         if is_in_mini_stream {
             self.minialloc_mut().free_mini_chain(start_sector_id)?;
         } else {
             self.minialloc_mut().free_chain(start_sector_id)?;
         }
-        debug_assert!(!names.is_empty());
-        let name = names.pop().unwrap();
-        let parent_id = self.stream_id_for_name_chain(&names).unwrap();
-        self.minialloc_mut().remove_dir_entry(parent_id, name)?;
         Ok(())
     }
 
